@@ -5,6 +5,7 @@ go 1.22.0
 require (
 	github.com/attestantio/dirk v0.0.0
 	github.com/rs/zerolog v1.33.0
+	github.com/wealdtech/eth2-signer-api v1.7.2
 	github.com/wealdtech/go-eth2-types/v2 v2.8.2
 	github.com/wealdtech/go-eth2-wallet-encryptor-keystorev4 v1.4.1
 	github.com/wealdtech/go-eth2-wallet-nd/v2 v2.5.0
@@ -74,7 +75,6 @@ require (
 	github.com/spf13/viper v1.19.0 // indirect
 	github.com/stretchr/testify v1.9.0 // indirect
 	github.com/subosito/gotenv v1.6.0 // indirect
-	github.com/wealdtech/eth2-signer-api v1.7.2 // indirect
 	github.com/wealdtech/go-bytesutil v1.2.1 // indirect
 	github.com/wealdtech/go-ecodec v1.1.4 // indirect
 	github.com/wealdtech/go-eth2-util v1.8.2 // indirect
